@@ -352,3 +352,89 @@ def r5(ctx, R):
     R.check(not (set(calls) & set(COPYING)), 'MultiComponentMesh.__getattr__ :: no copying call between the buffer and the object handed out (a write through the component must reach the parent, also for sliced / strided parents)', w, 'only indexing and .view()', calls)
     raises = [ast.unparse(s.exc)[:40] for s in ast.walk(fn) if isinstance(s, ast.Raise) and s.exc is not None]
     R.check(len(raises) == 2 and all(r.startswith('AttributeError') for r in raises), 'MultiComponentMesh.__getattr__ :: unknown names and unexpected shapes raise AttributeError', w, 'two raising arms', raises)
+
+
+def _component_names(repo):
+    """component names of every MultiComponentMesh subclass of the library: class name -> tuple of names"""
+    base = repo.cls(DT + 'mesh.py', 'MultiComponentMesh')
+    out = {}
+    for c in repo.subclasses(base):
+        for k in c.mro:
+            body = getattr(getattr(k, 'node', None), 'body', [])
+            comps = [s.value for s in body if isinstance(s, ast.Assign) and any(isinstance(t, ast.Name) and t.id == 'components' for t in s.targets)]
+            if comps and isinstance(comps[0], (ast.List, ast.Tuple)):
+                out[c.name] = tuple(e.value for e in comps[0].elts if isinstance(e, ast.Constant))
+                break
+    return out
+
+
+def _class_attr(ci, name):
+    for k in ci.mro:
+        for s in getattr(getattr(k, 'node', None), 'body', []):
+            if isinstance(s, ast.Assign) and any(isinstance(t, ast.Name) and t.id == name for t in s.targets):
+                return s.value
+    return None
+
+
+def _inout_helper(ci, stmt, target, resolve):
+    v = stmt.value
+    if not (isinstance(v, ast.Call) and isinstance(v.func, ast.Attribute) and isinstance(v.func.value, ast.Name) and v.func.value.id == 'self'):
+        return False
+    pos = [i for i, a in enumerate(v.args) if ast.unparse(a) == ast.unparse(target)]
+    r = resolve(ci, v.func.attr)
+    if len(pos) != 1 or not r:
+        return False
+    fn = r[1]
+    params = [a.arg for a in fn.args.args][1:]
+    if pos[0] >= len(params):
+        return False
+    rets = [x.value for x in ast.walk(fn) if isinstance(x, ast.Return)]
+    return bool(rets) and all(isinstance(x, ast.Name) and x.id == params[pos[0]] for x in rets) and not any(isinstance(a, ast.Assign) and any(isinstance(t, ast.Name) and t.id == params[pos[0]] for t in a.targets) for a in ast.walk(fn))
+
+
+def component_rebinds(ci, comps_of, resolve=None):
+    """(method, lineno, text) of every `obj.<component> = value` in a problem class whose dtype_u / dtype_f is a multi-component mesh"""
+    names = set()
+    for slot in ('dtype_u', 'dtype_f'):
+        v = _class_attr(ci, slot)
+        if isinstance(v, ast.Name) and v.id in comps_of:
+            names |= set(comps_of[v.id])
+    hits = []
+    if not names:
+        return names, hits
+    for mname, fn in ci.methods.items():
+        for s in ast.walk(fn):
+            if isinstance(s, ast.Assign):
+                for t in s.targets:
+                    if isinstance(t, ast.Attribute) and t.attr in names and isinstance(t.value, ast.Name) and t.value.id != 'self':
+                        if resolve is not None and _inout_helper(ci, s, t, resolve):
+                            continue  # `f.c = self.helper(.., f.c, ..)` where the helper returns that very parameter: the name is rebound to its own view
+                        hits.append((mname, s.lineno, ast.unparse(s)[:90]))
+    return names, hits
+
+
+@rule('C13', 'C13.R6', 'components are written THROUGH their views, never rebound: in a problem class whose dtype_u / dtype_f is a multi-component mesh (imex_mesh, comp2_mesh, ..), `f.impl = value` creates an instance attribute that shadows the component accessor while the buffer stays as allocated - the sweeper that reads `f.impl` sees the value, every copy (`dtype_f(f)`, fold/uold, initial_guess="copy"), every arithmetic result and every transfer sees the untouched buffer; the store must be `f.impl[:] = value`', floor=25)
+def r6(ctx, R):
+    from ..model import Repo
+    big = ctx.memo('repo_with_projects', lambda: Repo(ctx.repo.root, extra_dirs=('pySDC/projects',)))
+    comps_of = _component_names(big)
+    if not {'imex_mesh', 'comp2_mesh'} <= set(comps_of):
+        raise AnalysisError(f'C13.R6: component tables of imex_mesh / comp2_mesh not found ({sorted(comps_of)})')
+    base = big.cls('pySDC/core/problem.py', 'Problem')
+    n = 0
+    for ci in big.subclasses(base):
+        names, hits = component_rebinds(ci, comps_of, big.resolve)
+        if not names:
+            continue
+        n += 1
+        w = f'{ci.module.relpath}:{ci.name}'
+        R.fn(w)
+        by = {}
+        for m, line, text in hits:
+            by.setdefault(m, []).append(text)
+        if not by:
+            R.ok(f'{ci.name} :: no method rebinds a component ({", ".join(sorted(names))}) of its multi-component data', w, found='component stores are subscript stores')
+        for m, texts in sorted(by.items()):
+            R.bad(f'{ci.name}.{m} :: components are stored through their views', f'{ci.module.relpath}:{ci.name}.{m}', 'f.<component>[:] = value', texts)
+    if n < 25:
+        raise AnalysisError(f'C13.R6: only {n} problem classes with multi-component data found')
